@@ -6,5 +6,14 @@ cd "$DIR/engine/mirdump"
 CARGO_NET_OFFLINE=true cargo +nightly build --release --offline
 test -x target/release/mirdump
 python3 "$DIR/tools/gen_std_panics.py"
+# positive controls: facts of the fixture crate (violates every rule whose expected count on the real tree is zero)
+PYTHONPATH="$DIR/engine" python3 -c "
+import shutil
+from mhsa import runner
+tmp, out = runner.extract('$DIR/engine/fixtures/poscontrol')
+shutil.copy(out, '$DIR/engine/gen/fixture_facts.json')
+shutil.rmtree(tmp)
+print('fixture facts ok')
+"
 python3 -c "import sys; sys.path.insert(0, '$DIR/engine'); import mhsa.runner" 
 echo "setup ok"
